@@ -61,7 +61,15 @@ Definition oracle (s : bytes) (o : obs) : bool :=
   && Bool.eqb (o_vt o) (tag_rules_b s)
   && Bool.eqb (o_vd o) (dataset_rules_b s)
   && match o_cs o with
-     | SErr => true
+     | SErr =>
+       (* a rejected spec is one the documented grammar rejects: the walk does not
+          parse, or the base is neither head, a commit hash nor a valid ref name *)
+       let '(name, anc) := spec_grammar_split (trim_space s) in
+       match parse_instructions anc with
+       | SErr => true
+       | SOk _ => negb (beq_bytes (map to_lower name) commit_spec_head)
+                  && negb (looks_like_hash name) && negb (ref_rules_b name)
+       end
      | SOk (t, base, l) =>
        let '(name, anc) := spec_grammar_split (trim_space s) in
        match parse_instructions anc with
